@@ -26,7 +26,7 @@ from typing_extensions import Annotated, Final
 from ..schema.types import QualHashsumStr
 from ..util.hashsums import qualified_hashsum
 from ..util.types import OPEN_MODES, OpenMode
-from .overlay import IH5Group, attr_value_for_copy, h5_copy_from_to
+from .overlay import IH5Group, copy_attr, h5_copy_from_to
 
 # the magic string we use to identify a valid container
 FORMAT_MAGIC_STR: Final[str] = "ih5_v01"
@@ -645,8 +645,8 @@ class IH5Record(IH5Group):
         with type(self)(target, "x") as ds:
             source_node = self["/"]
             target_node = ds["/"]
-            for k, v in source_node.attrs.items():  # copy root attributes
-                target_node.attrs[k] = attr_value_for_copy(v)
+            for k in source_node.attrs.keys():  # copy root attributes
+                copy_attr(source_node.attrs, target_node.attrs, k)
             for name in source_node.keys():  # copy each entity (will recurse)
                 h5_copy_from_to(source_node[name], target_node, name)
 
